@@ -529,6 +529,25 @@ theorem compile_call_eq (isFn : Nat → Bool) (c : Ctx) (h : String) (args : Lis
   · simp only [h1, false_and, if_false]
     rfl
 
+
+/-- inside a `for`: the records completed so far (the loop's own record is still open) -/
+theorem LoopsFinal.for_body {gs g2 g5 : GS} {c : Ctx} {label : Option String} {b k : Int} {s : St}
+    (h : LoopsFinal (forDone g5 gs.loops.length b k) s) (h1 : KeepFns (forGs gs c label) g2) (h2 : KeepFns g2 g5) :
+    LoopsFinal g2 s := by
+  have hl5 : (forDone g5 gs.loops.length b k).loops.length = g5.loops.length := by simp [forDone]
+  have hst2 : g2.loopstack = gs.loops.length :: gs.loopstack := h1.loopstack
+  have hst5 : (forDone g5 gs.loops.length b k).loopstack = gs.loopstack := by
+    show g5.loopstack.drop 1 = _
+    rw [h2.loopstack, hst2]; rfl
+  refine ⟨Nat.le_trans h2.loopsLen (hl5 ▸ h.1), fun id hid hns => ?_⟩
+  rw [hst2] at hns
+  have hne : gs.loops.length ≠ id := fun e => hns (e ▸ List.mem_cons_self ..)
+  rw [h.2 id (by rw [hl5]; exact Nat.lt_of_lt_of_le hid h2.loopsLen)
+    (by rw [hst5]; exact fun hm => hns (List.mem_cons_of_mem _ hm))]
+  show (g5.loops.set gs.loops.length _).getD id {} = _
+  rw [List.getD_eq_getElem?_getD, List.getElem?_set_ne hne, ← List.getD_eq_getElem?_getD]
+  exact h2.loopsGet id hid
+
 /-! ## Self tail calls: the generator on tail positions (`Fz`) -/
 
 theorem okParam_no_hash {p : String} (h : okParam p = true) : p.startsWith "#" = false := by
